@@ -8,7 +8,8 @@ VARIABLES l, viol
 Failed(gs) == {g[1] : g \in {x \in gs : ~x[2]}}
 
 ObsRow(e, u) == IF ~e.post.row[u].present THEN NoRow
-                ELSE [pw |-> e.post.row[u].pw, expired |-> e.post.row[u].expired, intact |-> e.post.row[u].intact, how |-> row[u].how]
+                ELSE [pw |-> e.post.row[u].pw, expired |-> e.post.row[u].expired, intact |-> e.post.row[u].intact, how |-> row[u].how,
+                      age |-> IF "age" \in DOMAIN e.post.row[u] THEN e.post.row[u].age ELSE (IF e.post.row[u].expired THEN 2 ELSE 0)]
 LoginGuards(e) ==
     LET u == e.args.user pw == e.args.pw acc == e.out.accepted IN
     {<<"G_C07_Directory", acc => G_C07_Directory(u, pw)>>,
@@ -19,27 +20,33 @@ LoginGuards(e) ==
      <<"G_C07_OthersUntouched", \A v \in Users \ {u} : e.post.row[v].present = (row[v] # NoRow)>>}
 
 TInit == /\ dirPw = [u \in Users |-> "p1"] /\ srv = [i \in Servers |-> "up"] /\ row = [u \in Users |-> NoRow]
-         /\ confirmed = {} /\ last = [op |-> "init"] /\ l = 1 /\ viol = {}
+         /\ confirmed = {} /\ last = [op |-> "init"] /\ since = [u \in Users |-> 0] /\ l = 1 /\ viol = {}
 TNext == /\ l <= Len(TraceLog)
          /\ LET e == TraceLog[l] IN
             CASE e.ev = "Reset" ->
                    /\ dirPw' = [u \in Users |-> "p1"] /\ srv' = [i \in Servers |-> "up"] /\ row' = [u \in Users |-> NoRow]
-                   /\ confirmed' = {} /\ last' = [op |-> "init"] /\ UNCHANGED viol
+                   /\ confirmed' = {} /\ last' = [op |-> "init"] /\ since' = [u \in Users |-> 0] /\ UNCHANGED viol
               [] e.ev = "login" ->
                    LET bad == Failed(LoginGuards(e)) \cup (IF e.out.panic THEN {"G_C10_NoPanic"} ELSE {}) IN
                    /\ viol' = (IF bad = {} THEN viol ELSE viol \cup {<<l, "login", bad>>})
                    /\ row' = [u \in Users |-> ObsRow(e, u)]
                    /\ confirmed' = (IF AnyAnswers /\ e.out.accepted /\ e.args.pw = dirPw[e.args.user]
                                     THEN confirmed \cup {<<e.args.user, e.args.pw>>} ELSE confirmed)
+                   /\ since' = (IF AnyAnswers /\ e.out.accepted /\ e.args.pw = dirPw[e.args.user]
+                                THEN [since EXCEPT ![e.args.user] = 0] ELSE since)
                    /\ last' = [op |-> "login"] /\ UNCHANGED <<dirPw, srv>>
-              [] e.ev = "change" -> dirPw' = [dirPw EXCEPT ![e.args.user] = e.args.pw] /\ last' = [op |-> "change"] /\ UNCHANGED <<srv, row, confirmed, viol>>
-              [] e.ev = "server" -> srv' = [srv EXCEPT ![e.args.idx] = e.args.state] /\ last' = [op |-> "server"] /\ UNCHANGED <<dirPw, row, confirmed, viol>>
-              [] e.ev = "expire" -> row' = [row EXCEPT ![e.args.user] = IF @ = NoRow THEN @ ELSE [@ EXCEPT !.expired = TRUE]]
+              [] e.ev = "change" -> dirPw' = [dirPw EXCEPT ![e.args.user] = e.args.pw] /\ last' = [op |-> "change"] /\ UNCHANGED <<srv, row, confirmed, viol, since>>
+              [] e.ev = "server" -> srv' = [srv EXCEPT ![e.args.idx] = e.args.state] /\ last' = [op |-> "server"] /\ UNCHANGED <<dirPw, row, confirmed, viol, since>>
+              [] e.ev = "expire" -> row' = [row EXCEPT ![e.args.user] = IF @ = NoRow THEN @ ELSE [@ EXCEPT !.expired = TRUE, !.age = 2]]
+                                    /\ since' = [since EXCEPT ![e.args.user] = 2]
                                     /\ last' = [op |-> "expire"] /\ UNCHANGED <<dirPw, srv, confirmed, viol>>
+              [] e.ev = "halflife" -> row' = [row EXCEPT ![e.args.user] = IF @ = NoRow THEN @ ELSE [@ EXCEPT !.age = Older(@), !.expired = (Older(row[e.args.user].age) >= 2)]]
+                                    /\ since' = [since EXCEPT ![e.args.user] = Older(@)]
+                                    /\ last' = [op |-> "halflife"] /\ UNCHANGED <<dirPw, srv, confirmed, viol>>
               [] e.ev = "tamper" -> row' = [row EXCEPT ![e.args.user] = IF @ = NoRow THEN @
                                             ELSE IF e.args.how = "extendcolumn" THEN [@ EXCEPT !.how = "extendcolumn"]
                                             ELSE [@ EXCEPT !.intact = FALSE, !.how = e.args.how]]
-                                    /\ last' = [op |-> "tamper"] /\ UNCHANGED <<dirPw, srv, confirmed, viol>>
+                                    /\ last' = [op |-> "tamper"] /\ UNCHANGED <<dirPw, srv, confirmed, viol, since>>
          /\ l' = l + 1
 TSpec == TInit /\ [][TNext]_<<vars, l, viol>>
 Report == (l = Len(TraceLog) + 1) => PrintT(<<"VIOL", ToJson([n |-> l - 1, viol |-> viol])>>)
